@@ -442,12 +442,18 @@ def check(tier, seed):
                      "FunctionalExtensionality.functional_extensionality_dep, Classical_Prop.classic",
                      "extraction: ExtrOcamlBasic + ExtrOcamlString, no Extract Constant; OCaml driver does line I/O only"]
     ok16 = c.prove("Properties_C16", model_targets=["props/Properties_Lex.vo"], translators=["IntLadder", "Keywords"])
-    thms = list(c.cov.get("theorems", []))
-    thms += [t for t in vlib.theorems_in("Properties_Lex")]
-    c.cov["theorems"] = thms
-    c.cov["obligations"] = len(thms)
-    if ok16:
-        c.cov["discharged"] = len(thms)
+    okl, textl, _ = vlib.coq_make(["props/Properties_Lex.vo"], translators=["IntLadder", "Keywords"])
+    thms16 = list(c.cov.get("theorems", []))
+    thmsl = vlib.theorems_in("Properties_Lex")
+    c.cov["theorems"] = thms16 + thmsl
+    c.cov["obligations"] = len(thms16) + len(thmsl)
+    c.cov["discharged"] = (len(thms16) if ok16 else 0) + (len(thmsl) if okl["props/Properties_Lex.vo"] else 0)
+    if not okl["props/Properties_Lex.vo"]:
+        errs = re.findall(r'File "\./([^"]+)", line (\d+).*?\n(Error:.*?)(?=\n\S*make|\nFile|\Z)', textl, re.S)
+        c.broken_ties.append(("proof", "Properties/Properties_Lex", str(errs[0] if errs else textl[-800:])[:700]))
+    else:
+        axl, closedl = vlib.assumptions_of("Properties_Lex")
+        c.cov["trusted_base"] = list(c.cov["trusted_base"]) + ["Properties_Lex: " + ("axioms " + ", ".join(axl) if axl else "closed under the global context (%d reports)" % closedl)]
     hbin, sbin = builds()
     try:
         mbin = vlib.model_build("lex", ["theories/LexRun.vo"])
